@@ -115,7 +115,7 @@ class Ctx:
         if consts:
             cfg.append("CONSTANTS")
             for k, v in consts.items():
-                if isinstance(v, (list, tuple)) or (isinstance(v, str) and not re.fullmatch(r'[A-Za-z0-9_]+|"[^"]*"', v)):
+                if isinstance(v, (list, tuple, dict, Raw)):
                     # tuples / expressions cannot be written in a cfg file: define them in a wrapper module
                     defs.append("def_%s == %s" % (k, tla_value(v)))
                     cfg.append("  %s <- def_%s" % (k, k))
@@ -435,22 +435,35 @@ def _shorten(x, n=400):
     return x if len(t) <= n else t[:n] + "...(truncated)"
 
 
+class Raw(str):
+    """TLA+ text passed through verbatim."""
+
+
 def tla_value(v):
+    if isinstance(v, Raw):
+        return str(v)
     if isinstance(v, bool):
         return "TRUE" if v else "FALSE"
     if isinstance(v, int):
         return str(v)
     if isinstance(v, str):
-        return v            # already TLA+ text (use tla_str for a string literal)
+        return '"' + v + '"'
     if isinstance(v, (set, frozenset)):
         return "{" + ", ".join(tla_value(x) for x in sorted(v)) + "}"
     if isinstance(v, (list, tuple)):
         return "<<" + ", ".join(tla_value(x) for x in v) + ">>"
+    if isinstance(v, dict):
+        return "[" + ", ".join("%s |-> %s" % (k, tla_value(x)) for k, x in v.items()) + "]"
     raise TypeError(v)
 
 
 def tla_str(s):
     return '"' + s + '"'
+
+
+def B(s):
+    """bytes of a (latin-1) python string as a list of ints"""
+    return list(s.encode("latin-1")) if isinstance(s, str) else list(s)
 
 
 def load_known_findings():
